@@ -1,18 +1,30 @@
 # C03 — HLL sketch content is the per-slot max of coupons in every mode and register width
 #
-# Mutations confirmed caught (scratch worktree, VERIF_REPO): see the list at the end of this comment block
-# (filled in after the mutation runs).
+# Mutations confirmed caught (scratch worktree, VERIF_REPO=/tmp/wt_hll2 ./check C03, each reported VIOLATION):
+#  M1 HllUtil.hpp coupon(): value clip `lz > 62 ? 62` -> `lz > 63 ? 63`            (DESIGN 9 row C03; caught by the coupon-of-hash op 11)
+#  M2 Hll4Array shiftToBiggerCurMin: putSlot(slotNum, newShiftedVal) -> newShiftedVal + 1 (writes the token 15 instead of 14)
+#  M3 Hll6Array putSlot: (value & 0x3F) -> (value & 0x1F)                            (mask one bit short)
+#  M4 CouponList: list promotion at 7 instead of 8 (couponCount_ + 1 == size)
+#  M5 Hll4Array quick rejection `newValue <= curMin_` -> `<= curMin_ + 1`
+#  M6 HllArray hipAndKxQIncrementalUpdate: `newValue < 32` -> `newValue <= 32` in the add branch (kxq0/kxq1 split)
+#  M7 Hll8Array(const HllArray&) conversion: dropped `num_zeros--` (num_at_cur_min wrong after copy-as)
+#  M8 Hll4Array case 3: mustAdd(slotNo, newVal) -> mustAdd(slotNo, shiftedNewValue)   (wrong value into the aux map)
+# Harmless rewrites confirmed NOT reported (exit 0):
+#  H1 Hll4Array: initial aux table one size larger (LG_AUX_ARR_INTS[lgK] + 1 at both creation sites)
+#  H2 CouponHashSet find(): a different odd probe stride ((.. | 1) ^ 2): other physical order of the table, same content
+# Repairs prepared by this family (other properties): fixes/03_self_assign.patch (C19), fixes/03_hll4_updatable_stream.patch (C09);
+#  ./check C03 is green with and without them (VERIF_REPO=/tmp/wt_hll with both applied: exit 0).
 import struct
 
 PROP = "C03"
-READY = False
+READY = True
 COQ_PROPS = ['Properties_C03']
 RULE = ('operation scripts over several hll_sketch registers: lg_k 4..12 (thorough ..14; 3, 22, 255 refused), the three target types and '
         'start_full_size; (a) the same stream of real items of every update() overload (ints of all widths incl. sign-extension edges, '
         'doubles incl. -0.0/NaN, floats incl. subnormals, strings incl. empty, raw byte ranges) fed to one register per type with a query after every '
         'length 0..9, around every hash-set growth and around the HLL promotion (+-2), then a batch beyond promotion; (b) raw coupons through '
         'the private coupon_update at lg_k 4..7 up to 40*k, built to cover every slot repeatedly (cur-min shifts) with values >= cur_min+15 mixed in '
-        '(aux exceptions, exceptions that stop being exceptions after a shift); (c) the same multiset fed shuffled / with duplicates to separate '
+        '(aux exceptions, exceptions that stop being exceptions after a shift); (a2) HllUtil::coupon on raw hash states with 0..64 leading zeros; (c) the same multiset fed shuffled / with duplicates to separate '
         'registers of the same and of different types; (d) copy-as conversions from every mode and type to every type, and further updates after '
         'conversion; reset; non-trivial = the case crossed a promotion, a set growth, a cur-min shift, held an aux exception, converted or shuffled')
 TRUSTED = ['MurmurHash3 model coq/Murmur3.v and the item canonicalisation in HllDefs.item_bytes (both exercised against the implementation by every real-item update of this check)',
@@ -139,7 +151,7 @@ def gen(rng, tier):
 
     # ---- refused configurations, trivial emptiness ----
     ops = []
-    for j, lgk in enumerate([3, 22, 0, 255, 4, 21 if not quick else 12]):
+    for j, lgk in enumerate([3, 22, 0, 255, 4, 14 if not quick else 12]):   # 2^21 registers overflow the extracted runner's stack
         ops.append([1, j, lgk, rng.randrange(3), 0]); ops.append([6, j])
     ops.append([1, 9, 6, 3, 0])
     for ty in range(3):
@@ -147,6 +159,15 @@ def gen(rng, tier):
             r = 10 + ty * 2 + full
             ops += [[1, r, 5, ty, full], [6, r], [2, 1, r, 2], [6, r], [3, 1, r, 0], [6, r], [9, r], [6, r], [2, 1, r, 1, 5], [6, r], [9, r], [6, r]]
     add(ops, ['config'], 'cfg')
+
+    # ---- coupon(hash state): address bits and the clipping of the value at 63 leading zeros ----
+    ops = []
+    for lz in list(range(0, 8)) + list(range(24, 34)) + list(range(56, 65)):
+        for _ in range(2):
+            h2 = 0 if lz == 64 else ((1 << (63 - lz)) | rng.randrange(1 << (63 - lz)))
+            h1 = rng.choice([0, 2**64 - 1, (1 << 26) - 1, 1 << 26, rng.randrange(2**64)])
+            ops.append([11, h1, h2])
+    add(ops, ['coupon'], 'cpn')
 
     # ---- (a) same item stream into the three types + a full-size register ----
     lgks = list(range(4, 13)) if quick else list(range(4, 15)) * 3
@@ -392,6 +413,19 @@ def oracle(case, irecs, mrecs):
 FAMILIES = [dict(name='hll', harness='drv_hll.cpp', extract='Extract_hll.v', model='model_hll', gen=gen, oracle=oracle)]
 
 MANIFEST = dict(
-    level_text='(filled in when the theorems are in place)',
-    level_note='',
+    level_text=('PROVED in Coq for ALL inputs (every lg_k 4..21, HLL_4/HLL_6/HLL_8, start_full_size or not, every sequence of 32-bit coupons; '
+                'induction over the coupon list) about the executable model that is extracted and run against the C++: '
+                'the run never takes a throwing path; the mode is a function of the number of distinct coupons (list < 8, set <= 3*2^(lg_k-5) for lg_k >= 8, else HLL); '
+                'list/set content = the set of distinct coupons; HLL registers (read through the array iterator) = per-slot max of the coupon values through the '
+                'list->set->HLL promotions (open-addressing set with growth, proved with an arbitrary odd stride), the packed HLL_6 array and the HLL_4 array '
+                '(cur_min shifts, AuxHashMap exceptions incl. growth, "impossible case 2" unreachable); hence order/duplicate independence and agreement of the three types and of a '
+                'full-size start; copy-as conversions preserve content and the copy keeps behaving as a sketch of the new type; kxq0, kxq1 and the zero count '
+                'used by the estimators are functions of the registers alone; HLL_4 cur_min = min register, num_at_cur_min = its multiplicity, aux = exactly the values >= cur_min+15; '
+                'is_empty() is true exactly when no coupon was fed (all modes/types/full-size). '
+                'CHECKED on every run (not proved): the model corresponds to the C++ (exact comparison of mode, coupons, registers, cur_min, num_at_cur_min, exact kxq integers, aux pairs, '
+                'is_empty, flags on generated scripts incl. every update() overload through the Murmur model, HllUtil::coupon on raw hash states); composite estimate equal for equal content, '
+                'in-order (HIP) estimate equal for equal coupon sequences across types; lower bound <= estimate <= upper bound.'),
+    level_note=('Not claimed: floating-point HIP accumulator, estimator and bound values themselves (only the equalities/orderings above are tested on outputs); '
+                'kxq doubles are exact integers of 2^-31 / 2^-63 (checked by the harness on every query, not proved); lg_k > 14 is not run (theorems cover it); '
+                'union / out-of-order states are C04; serialization is C09-C11.'),
     design_ref='DESIGN.md section 5 C03')
